@@ -23,5 +23,15 @@
                 (get-output-string out))
                (else
                 (write-char ch out)
+                (lp)))))))
+      (define (port->bytevector in)
+        (let ((out (open-output-bytevector)))
+          (let lp ()
+            (let ((b (read-u8 in)))
+              (cond
+               ((eof-object? b)
+                (get-output-bytevector out))
+               (else
+                (write-u8 b out)
                 (lp))))))))))
   (include "quoted-printable.scm"))
